@@ -14,6 +14,7 @@ package soyhtml
 
 //@ func htmlEscapeString
 //@   props C03 C12
+//@   nosafety nilcall
 //@   ghost covered int = 0
 //@   ghost wfail bool = false
 //@   at call io.WriteString#0 assert[tile-plain;C03] 0 <= covered && substr(arg1, str, covered) && covered + len(arg1) <= len(str) && forall(k, covered, covered + len(arg1), !special(str[k]))
